@@ -899,3 +899,74 @@ def r03k(ctx):
             else:
                 ctx.bad(cid, c.module.loc(call), f"`{unparse(call)}` names a column of {c.name}'s OUTPUT from the input's metadata alone (`{text[:80]}`), ignoring the `name` parameter and pandas' collision renaming: with reset_index(name=...) or an input that already has that column the term is not translated and keeps reading the reset frame")
     ctx.floor("hand-translated own-output columns", m_, 1)
+
+
+# ---------------------------------------------------------------------------------------------
+# R03l
+# ---------------------------------------------------------------------------------------------
+
+
+@rule(
+    "R03l",
+    ["C03", "C01"],
+    """OR-FACTORING PULLS OUT ONLY WHAT EVERY DISJUNCT CONTAINS, AND ABSORBS: `(A & B) | (A & C)` -> `A & (B | C)` is an identity only for
+    conjuncts present in EVERY disjunct, and when a disjunct consists of nothing but the common part the whole OR collapses to it
+    (`A | (A & B) == A`). In `_replace_common_or_components`: (a) a conjunct becomes a replacement only under a universally quantified
+    membership test over all disjuncts (`all(c in comp for comp in <all components>)`) or through an ACCUMULATED intersection
+    (`common &= ...` / `common = common & ...`); (b) where nothing of a disjunct is left after factoring (`len(<kept>) == 0`) the
+    function RETURNS the common part - skipping the disjunct (`continue`) turns "always true given A" into "false".""",
+)
+def r03l(ctx):
+    model = ctx.model
+    mod, fn = model.func("_expr", "_replace_common_or_components")
+    comps_param = fn.args.args[1].arg
+    # (a)
+    universal = False
+    for call in (x for x in ast.walk(fn) if isinstance(x, ast.Call) and isinstance(x.func, ast.Attribute) and x.func.attr in ("append", "add")):
+        p = flow.point_of(fn, call)
+        if p is None:
+            continue
+        for t, pol in flow.facts(p):
+            if pol and isinstance(t, ast.Call) and dotted(t.func) == "all" and t.args and isinstance(t.args[0], (ast.GeneratorExp, ast.ListComp)):
+                g = t.args[0]
+                if isinstance(g.elt, ast.Compare) and isinstance(g.elt.ops[0], ast.In) and ast.unparse(g.elt.comparators[0]) == ast.unparse(g.generators[0].target):
+                    universal = True
+    accumulated = False
+    for st in ast.walk(fn):
+        if isinstance(st, ast.AugAssign) and isinstance(st.op, ast.BitAnd):
+            accumulated = True
+        if isinstance(st, ast.Assign) and isinstance(st.value, ast.BinOp) and isinstance(st.value.op, ast.BitAnd) and any(isinstance(t, ast.Name) and t.id in {n.id for n in ast.walk(st.value) if isinstance(n, ast.Name)} for t in st.targets) and not any(isinstance(x, ast.Attribute) for x in [st.value.left, st.value.right] if False):
+            # `common = common & set(comp)` - the target occurs on the right-hand side; `outer = outer & mapping[r]` builds the
+            # predicate, not the candidate set: require a set(...) operand
+            if "set(" in ast.unparse(st.value):
+                accumulated = True
+        if isinstance(st, ast.Call) and isinstance(st.func, ast.Attribute) and st.func.attr == "intersection_update":
+            accumulated = True
+    cid = "_expr._replace_common_or_components:common-to-all"
+    if universal or accumulated:
+        ctx.ok(cid, mod.loc(fn), "a conjunct is factored out only if every disjunct contains it")
+    else:
+        ctx.bad(cid, mod.loc(fn), "conjuncts are collected for factoring without a universally quantified membership test over ALL disjuncts (`all(c in comp for comp in ...)`) or an accumulated intersection: a conjunct found in some disjuncts only is pulled in front of the OR and filters out rows that another disjunct accepts")
+    # (b)
+    absorbed = None
+    for pt in flow.walk(fn):
+        if not any(pol and pmatch("len(V_k) == 0", t) is not None for t, pol in flow.facts(pt)):
+            continue
+        if not any(isinstance(a_, ast.For) for a_ in _ancestors(pt.stmt, fn)):
+            continue
+        cid = "_expr._replace_common_or_components:absorption"
+        if isinstance(pt.stmt, ast.Return) and pt.stmt.value is not None:
+            absorbed = True
+            ctx.ok(cid, mod.loc(pt.stmt), "a disjunct with nothing left makes the OR collapse to the common part")
+        elif isinstance(pt.stmt, (ast.Continue, ast.Pass)):
+            absorbed = False
+            ctx.bad(cid, mod.loc(pt.stmt), f"when nothing of a disjunct is left after factoring the code does `{unparse(pt.stmt)}` instead of returning the common part: `A | (A & B)` must collapse to `A`; dropping the disjunct leaves `A & B`, which rejects rows the original predicate accepts")
+    if absorbed is None:
+        ctx.unclassified("_expr._replace_common_or_components:absorption", mod.loc(fn), "the empty-remainder case is not spelled `len(<kept>) == 0` inside the disjunct loop")
+
+
+def _ancestors(node, stop):
+    p = getattr(node, "_parent", None)
+    while p is not None and p is not stop:
+        yield p
+        p = getattr(p, "_parent", None)
